@@ -78,7 +78,14 @@ def tree_hash():
 
 # ----------------------------------------------------------------------------- frozen clock
 
-class _FrozenDate(datetime.date):
+class _AnyDateMeta(type):
+    """isinstance(x, frozen class) must accept the real datetime objects too (gs1_128 tests
+    isinstance(value, datetime.date) on values made by strptime)"""
+    def __instancecheck__(cls, inst):
+        return isinstance(inst, cls.__mro__[1])
+
+
+class _FrozenDate(datetime.date, metaclass=_AnyDateMeta):
     _today = datetime.date(2026, 9, 26)
 
     @classmethod
@@ -86,7 +93,7 @@ class _FrozenDate(datetime.date):
         return datetime.date(cls._today.year, cls._today.month, cls._today.day)
 
 
-class _FrozenDateTime(datetime.datetime):
+class _FrozenDateTime(datetime.datetime, metaclass=_AnyDateMeta):
     @classmethod
     def now(cls, tz=None):
         t = _FrozenDate._today
